@@ -134,9 +134,10 @@ FLOATS32 = [0.0, 1.0, -1.0, 1.5, -1.5, 0.5, 2.0, 255.0, 1e10, f32(3.402823466385
 FLOATS64 = FLOATS32 + [0.1, 1e300, 2.2250738585072014e-308, 5e-324, 1.7976931348623157e308, -1e-300]
 
 
-def layer_a_float_units(quick: bool) -> List[Tuple[str, List[Dict[str, Any]]]]:
+def layer_a_float_units(quick: bool, wide: bool = False) -> List[Tuple[str, List[Dict[str, Any]]]]:
     progs = []
-    for base, vals in (("A_FLOAT32", FLOATS32), ("A_FLOAT64", FLOATS64)):
+    extra: List[Any] = [1e39, -1e39, 1e308, 1 << 200, 16777217, 0.1] if wide else []
+    for base, vals in (("A_FLOAT32", FLOATS32 + extra), ("A_FLOAT64", FLOATS64 + extra)):
         for order in ORDERS:
             for byte in (None, 1):
                 pid = f"f_{base[-2:]}_{ {True: 'h', False: 'l', None: 'n'}[order]}_{'a' if byte is None else byte}"
@@ -181,7 +182,7 @@ def enc_len_fn(base: str, enc: Optional[str]) -> Any:
     return lambda s: len(s.encode(codec))
 
 
-def layer_a_string_units(quick: bool) -> List[Tuple[str, List[Dict[str, Any]]]]:
+def layer_a_string_units(quick: bool, wide: bool = False) -> List[Tuple[str, List[Dict[str, Any]]]]:
     progs = []
     for base, enc, kind in STR_KINDS:
         for order in ORDERS:
@@ -191,6 +192,12 @@ def layer_a_string_units(quick: bool) -> List[Tuple[str, List[Dict[str, Any]]]]:
                 vals = strings_of_bytelen(kind, nbits // 8, enc_len_fn(base, enc))
                 if not vals:
                     continue
+                if wide:
+                    # shorter, longer, empty, unencodable
+                    vals = vals[:3] + strings_of_bytelen(kind, nbits // 8 - 1, enc_len_fn(base, enc))[:2] + \
+                        strings_of_bytelen(kind, nbits // 8 + 1, enc_len_fn(base, enc))[:2] + [vals[0][:0]]
+                    if kind != "bytes":
+                        vals.append("\u4e2d")
                 for byte in (None, 1):
                     pid = f"s_{base[2:5]}{(enc or 'x')[:3].replace('-', '')}{(enc or 'x')[-1]}_{ {True: 'h', False: 'l', None: 'n'}[order]}_{nbits}_{'a' if byte is None else byte}"
                     progs.append(one_value_program(pid, {"dct": std(base, nbits, enc, order)}, byte, None, vals, ("string", base, enc or "-")))
@@ -235,7 +242,7 @@ def layer_a_minmax_units(quick: bool) -> List[Tuple[str, List[Dict[str, Any]]]]:
     return [("A/minmax", progs)]
 
 
-def layer_a_lead_units(quick: bool) -> List[Tuple[str, List[Dict[str, Any]]]]:
+def layer_a_lead_units(quick: bool, wide: bool = False) -> List[Tuple[str, List[Dict[str, Any]]]]:
     progs = []
     kinds = [("A_BYTEFIELD", "bytes"), ("A_ASCIISTRING", "latin"), ("A_UTF8STRING", "utf8"), ("A_UNICODE2STRING", "ucs2")]
     for base, kind in kinds:
@@ -245,6 +252,9 @@ def layer_a_lead_units(quick: bool) -> List[Tuple[str, List[Dict[str, Any]]]]:
                 # a long payload to cross 4-bit limits is C04's business; one 15-byte payload here
                 long15: Any = (b"\x41" * 15) if kind == "bytes" else ("A" * 15 if kind != "ucs2" else "A" * 7)
                 vals = vals + [long15]
+                if wide:
+                    u: Any = b"\x41" if kind == "bytes" else "A"
+                    vals = vals + [u * 16, u * 255, u * 256, u * 65536]
                 for follower in (False, True):
                     pid = f"ll_{base[2:5]}_{lbits}_{bit}_{'h' if order else 'l'}_{'f' if follower else 'l'}"
                     dct = {"k": "LEAD", "base": base, "bits": lbits, "hilo": order}
@@ -458,6 +468,8 @@ def build_program(seq: List[Tuple[str, str]], kind: str = "REQUEST", request: Op
         last = idx == len(seq) - 1
         if t["last_only"] and not last:
             return None
+        if t["last_only"] and mode == "hole":
+            return None  # an (possibly empty) end-of-PDU object after a hole has no defined encoding
         if t["response_only"] and kind == "REQUEST":
             return None
         ps = [dict(p) for p in t["params"](idx)]
